@@ -172,6 +172,9 @@ def gen(rng, tier):
         for f in range(min(ncalls + 1, 40 if thorough else 20)):
             cases.append(dict(c, kind="ev", fault=f))
     # directed: multi-argument built-ins over every pairing of plain / secret / unknown arguments
+    for c in G.provider_layer_worlds(thorough):
+        for mode in (False, True):
+            cases.append(dict(c, kind="ev", check=mode, show=True))
     for j, c in enumerate(G.flag_matrix_worlds()):
         for mode in (False, True):
             cases.append(dict(c, kind="ev", check=mode, show=True))
